@@ -40,6 +40,8 @@ struct Driver {
     provers: Provers,
     held: Option<Held>,
     real_budget: u32,
+    /// how many creations needing Orchard-family proofs this shard may still run for real
+    halo2_budget: u32,
     /// per-shard cap on seconds spent in transaction creation
     create_budget_ms: u64,
     create_spent_ms: u64,
@@ -220,7 +222,9 @@ fn kinds_present(v: &View, q: &Req) -> BTreeSet<Inel> {
 fn proposal_op(wd: &mut World, r: &mut Reporter, d: &mut Driver) {
     let Some(target) = wd.target() else { return };
     let mut q = random_req(wd);
+    let t_v = std::time::Instant::now();
     let v = wd.m.view(&wd.sim, &wd.w, target);
+    r.count("us_view", t_v.elapsed().as_micros() as u64);
     let f = funds(&v, &q);
     choose_amounts(wd, &mut q, &f);
     let present = kinds_present(&v, &q);
@@ -384,12 +388,34 @@ fn do_create(wd: &mut World, r: &mut Reporter, d: &mut Driver, h: Held) {
         6 => Some(0),
         _ => None,
     };
-    let use_real = d.real_budget > 0 && wd.rng.gen_bool(0.5);
+    let n_inputs = match &h {
+        Held::Notes(_, _, i) | Held::Shield(_, _, i) => i.iter().map(|s| s.len()).sum::<usize>(),
+    };
+    let use_real = d.real_budget > 0 && n_inputs <= 2 && wd.rng.gen_bool(0.7);
     let t0 = std::time::Instant::now();
+    // Orchard-family proofs cost seconds each: only a few per shard go through the real builder,
+    // the rest through the fabricated-transaction fallback (or are not created at all)
+    let heavy = match &h {
+        Held::Notes(_, p, _) => check::needs_orchard_proofs(p),
+        Held::Shield(_, p, _) => check::needs_orchard_proofs(p),
+    };
+    if heavy && d.halo2_budget == 0 {
+        if let Held::Notes(q, p, i) = &h {
+            if check::fabricate(wd, r, q, p, i, expiry) {
+                return;
+            }
+        }
+        r.count("creations_skipped_need_halo2_proofs", 1);
+        return;
+    }
     let ok = match &h {
         Held::Notes(q, p, i) => create(wd, r, q, p, i, expiry, &mut d.provers, use_real),
         Held::Shield(q, p, i) => create(wd, r, q, p, i, expiry, &mut d.provers, use_real),
     };
+    if heavy {
+        d.halo2_budget -= 1;
+        r.count("pending_created_with_real_halo2_proofs", ok as u64);
+    }
     d.create_spent_ms += t0.elapsed().as_millis() as u64;
     if ok && use_real {
         d.real_budget -= 1;
@@ -543,6 +569,7 @@ fn main() {
         provers: Provers { real: None },
         held: None,
         real_budget: args.get_u64("real-prover-txs", if thorough { 12 } else { 1 }) as u32,
+        halo2_budget: args.get_u64("halo2-txs", if thorough { 10 } else { 0 }) as u32,
         create_budget_ms: (args.budget_s * 1000.0 * 0.45) as u64,
         create_spent_ms: 0,
     };
